@@ -44,12 +44,39 @@ def header(name: str, size: int, *, typeflag=b"0", visor=False, offset=0, text_p
     return bytes(h)
 
 
+def ext_record(m):
+    """Extension record written in front of a member's header: GNU long name ("L": payload = name + NUL) or pax ("x":
+    payload = "<len> path=<name>\\n"); the record's own header is an ordinary (non-visor) one, or a visor one with offset 0."""
+    if not m.get("ext_kind"):
+        return b""
+    full = m["fullname"].encode()
+    if m["ext_kind"] == "gnu":
+        payload = full + b"\0"
+        h = bytearray(header("././@LongLink", len(payload), typeflag=b"L", mode=0))
+        h[257:265] = b"visor  \0" if m.get("ext_visor") else b"ustar  \0"
+    else:
+        rec = b" path=" + full + b"\n"
+        n = len(rec) + len(str(len(rec) + len(str(len(rec)))))
+        if len(str(n)) + len(rec) != n:
+            n = len(str(n)) + len(rec)
+        payload = str(n).encode() + rec
+        assert len(payload) == n
+        h = bytearray(header("./PaxHeaders/member", len(payload), typeflag=b"x"))
+        if m.get("ext_visor"):
+            h[257:265] = b"visor  \0"
+    h[148:156] = b" " * 8
+    h[148:156] = ("%06o" % sum(h)).encode() + b"\0 "
+    return bytes(h) + payload + bytes((-len(payload)) % 512)
+
+
 def build(members, *, data_align=4096, data_gap=0, trailing_blocks=2, extra_tail=b""):
     """members: [{"name","visor","dir","size","inline","slot","data": bytes, "prefix": str}] -> archive bytes.
-    Inline data follows the header (padded to 512); external data of visor members goes to the data area in slot order."""
+    Inline data follows the header (padded to 512); external data of visor members goes to the data area in slot order.
+    Optional "ext_kind" ("gnu" / "pax") + "fullname": an extension record carrying the real (long) name precedes the header."""
     # pass 1: header-area length
     hdr_len = 0
     for m in members:
+        hdr_len += len(ext_record(m))
         hdr_len += 512 + (-(-m["size"] // 512) * 512 if m["inline"] else 0)
     hdr_len += 512 * trailing_blocks
     ext = sorted([m for m in members if not m["inline"]], key=lambda m: m["slot"])
@@ -61,6 +88,7 @@ def build(members, *, data_align=4096, data_gap=0, trailing_blocks=2, extra_tail
     out = bytearray()
     for m in members:
         tf = b"5" if m["dir"] else b"0"
+        out += ext_record(m)
         out += header(m["name"], m["size"], typeflag=tf, visor=m["visor"], offset=offs.get(id(m), 0), prefix=m.get("prefix", ""),
                       mode=0o755 if m["dir"] else 0o644)
         if m["inline"] and m["size"]:
